@@ -63,11 +63,25 @@ pub fn alt_groups() -> Vec<(Opts, Vec<Tok>)> {
     out
 }
 
+/// the name table used for cutting vectors: help and version requests are named occurrences
+/// too (two more fields)
+fn c03_table(u: &Unit) -> Table {
+    let mut t = if u.family == "alt-groups" { fine_table(&u.opts) } else { table(&u.opts) };
+    if u.family == "help-version" {
+        let info = |field: usize| NameInfo { field, is_arg: false, multi: true, hidden: false, ty: Ty::Os, transformed: false };
+        t.longs.insert("help".into(), info(9001));
+        t.shorts.insert('h', info(9001));
+        t.longs.insert("version".into(), info(9002));
+        t.shorts.insert('V', info(9002));
+    }
+    t
+}
+
 fn equivalent(a: &Outcome, b: &Outcome) -> bool {
     match (a, b) {
         (Outcome::Value(x), Outcome::Value(y)) => x == y,
         (Outcome::Stderr(_), Outcome::Stderr(_)) => true,
-        (Outcome::Stdout { .. }, Outcome::Stdout { .. }) => true,
+        (Outcome::Stdout { text: x, .. }, Outcome::Stdout { text: y, .. }) => x == y,
         (Outcome::Completion(x), Outcome::Completion(y)) => x == y,
         _ => false,
     }
@@ -162,6 +176,8 @@ impl Check for C03 {
         tails.extend(fam::cmd_tails(seed, false, false));
         for l in fam::conventional(2, &tails, seed) {
             let mut alpha = alphabet(&l, AlphaStyle::Compact);
+            // an undeclared dash-digit item (looks like a negative number)
+            alpha.push(Tok::s("-5"));
             // an explicitly empty attached value is a whole occurrence too
             for n in &l.named {
                 if n.kind.is_arg() {
@@ -174,6 +190,13 @@ impl Check for C03 {
             }
             out.push(serde_json::to_value(Unit { opts: l.to_opts(), len: tier.pick(3, 4), family: "conventional".into(), alpha }).unwrap());
         }
+        // help and version requests among the named items of a level that configures a version
+        for mut l in fam::conventional(1, &[Tail::None, fam::pos(&[PosKind::Opt])], seed + 1) {
+            l.version = Some("1.2.3".into());
+            let mut alpha = alphabet(&l, AlphaStyle::Compact);
+            alpha.extend(toks(&["--help", "-h", "--version", "-V"]));
+            out.push(serde_json::to_value(Unit { opts: l.to_opts(), len: tier.pick(3, 4), family: "help-version".into(), alpha }).unwrap());
+        }
         for (o, alpha) in alt_groups() {
             out.push(serde_json::to_value(Unit { opts: o, len: tier.pick(4, 5), family: "alt-groups".into(), alpha }).unwrap());
         }
@@ -185,8 +208,12 @@ impl Check for C03 {
             Ok(p) => p,
             Err(_) => return,
         };
-        let t = if u.family == "alt-groups" { fine_table(&u.opts) } else { table(&u.opts) };
-        let alpha = if u.alpha.is_empty() { shape_alphabet(&u.opts) } else { u.alpha.clone() };
+        let t = c03_table(&u);
+        let mut alpha = if u.alpha.is_empty() { shape_alphabet(&u.opts) } else { u.alpha.clone() };
+        if u.alpha.is_empty() {
+            // an undeclared dash-digit item (looks like a negative number)
+            alpha.push(Tok::s("-5"));
+        }
         tree(&alpha, u.len, &mut |argv| {
             if argv.len() >= 2 {
                 check_vector(unit, &u.family, &p, &t, argv, ctx);
@@ -202,7 +229,7 @@ impl Check for C03 {
             Ok(p) => p,
             Err(_) => return,
         };
-        let t = if u.family == "alt-groups" { fine_table(&u.opts) } else { table(&u.opts) };
+        let t = c03_table(&u);
         let mut c2 = Ctx::new(ctx.tier, ctx.seed);
         check_vector(unit, &u.family, &p, &t, &base, &mut c2);
         for (k, (n, v)) in c2.s.violations {
@@ -217,7 +244,7 @@ impl Check for C03 {
         ctx.s.evaluations += c2.s.evaluations;
     }
     fn rule(&self) -> String {
-        "definitions = all ordered tuples of <=2 (thorough: 3) distinct field kinds from 12 (switch, argument, repeated argument, bare and repeated choice, optional and repeated group, hidden argument with fallback, guarded u32, counter, parse+fallback, optional choice with a defaulted branch) x 4 tails, plus the conventional family (alphabet with explicitly empty attached values `--name=`), plus exclusive alternatives of groups that share a switch ({-v [--level L]} | {-v --out O FILE..}, 30 ordered pairs of 6 group templates, with and without a neighbouring switch; here a field is a leaf parser, so items of one group and of different branches are permuted freely); base vectors = every vector of the token tree; each base vector that is a sequence of whole occurrences is cut into blocks (flag / argument with its value / word; nothing crosses a command name or `--`) and EVERY permutation that keeps the relative order of blocks feeding one field and of the words is run and compared with the base outcome (equal value, or same failure class); evaluation = one run; non-trivial = base vector with at least one different permuted vector and at least one accepted order".into()
+        "definitions = all ordered tuples of <=2 (thorough: 3) distinct field kinds from 12 (switch, argument, repeated argument, bare and repeated choice, optional and repeated group, hidden argument with fallback, guarded u32, counter, parse+fallback, optional choice with a defaulted branch) x 4 tails, plus the conventional family (alphabet with explicitly empty attached values `--name=`), plus exclusive alternatives of groups that share a switch ({-v [--level L]} | {-v --out O FILE..}, 30 ordered pairs of 6 group templates, with and without a neighbouring switch; here a field is a leaf parser, so items of one group and of different branches are permuted freely); plus levels with a configured version whose alphabet contains the help and version requests (--help -h --version -V are named occurrences of two more fields; equal stdout text demanded); base vectors = every vector of the token tree; each base vector that is a sequence of whole occurrences is cut into blocks (flag / argument with its value / word / undeclared dash item such as -z or -5, which keeps its place among the words; nothing crosses a command name or `--`) and EVERY permutation that keeps the relative order of blocks feeding one field and of the words is run and compared with the base outcome (equal value, or same failure class); evaluation = one run; non-trivial = base vector with at least one different permuted vector and at least one accepted order".into()
     }
     fn bounds(&self, tier: Tier) -> Value {
         json!({"fields_per_level": tier.pick("<=2 + tail", "<=3 + tail"), "vector_length": tier.pick("4 (shapes), 3 (conventional)", "5 (shapes), 4 (3-field shapes, conventional)")})
